@@ -30,9 +30,10 @@ CHECKS["C03"] = dict(
     level="exploration", design="DESIGN.md §4 C03",
     technique="property-based testing with an encoding-variant generator (decision lists drawn and shrunk by Hypothesis) over reference BER/PER/OER encoders and XER layout variants; oracle: decode gives RC_OK, full consumption and the reference DER",
     text="For each generated value a family of alternative valid encodings is produced (indefinite/long/padded lengths, "
-         "constructed and nested strings, permuted SET/SET OF, DEFAULT present, unknown extension additions, REAL forms, "
-         "BASIC-PER/BASIC-OER options, XER white space/comments/empty-element forms); the library must accept each and "
-         "yield the same value.  Decision lists shrink to the single offending choice.",
+         "constructed and nested strings, permuted SET/SET OF, DEFAULT present, unknown extension additions in BER, UPER, OER "
+         "and XER, REAL forms, BASIC-PER/BASIC-OER options, XER white space/comments/empty-element forms); the library must "
+         "accept each and yield the same value.  Decision lists shrink to the single offending choice; catalogue types get "
+         "every boundary value under every forced variant.",
     note="only decisions the standards allow are generated; XER element naming is taken from the library's own "
          "CANONICAL-XER output (layout only is varied); sample of an infinite family")
 CHECKS["C05"] = dict(
@@ -74,7 +75,8 @@ CHECKS["C04"] = dict(
     level="exploration", design="DESIGN.md §4 C04",
     technique="fuzzing: structure-aware mutation of reference encodings (Hypothesis-drawn mutation lists over DER/BER/OER/UPER/XER of generated values) plus coverage-guided libFuzzer campaigns on a generic in-process target; oracle: sanitizers, rc in the documented set, consumed <= size, ledger balance, and accepted => re-encodable and stable",
     text="G1: every reference encoding of a generated value is damaged by drawn mutations (bit flips, length edits, truncation, "
-         "splices, tag edits, XML edits) and decoded under ASan/UBSan with the allocation ledger; G2: libFuzzer drives "
+         "splices, tag edits, damaged end-of-contents octets, XML tag and lexical-form edits) and decoded under ASan/UBSan "
+         "with the allocation ledger; G2: libFuzzer drives "
          "c/fuzz_decode.c (last two input octets select the type and the syntax) over modules drawn from the same generator, "
          "seeded with valid encodings.  Whatever the decoder accepts must re-encode, decode again to the same DER, and leave "
          "nothing allocated; rejection must be RC_FAIL/RC_WMORE with consumed within the buffer.",
@@ -100,8 +102,8 @@ CHECKS["C13"] = dict(
     technique="metamorphic property-based testing across code-generation options: the same generated module compiled under different option sets must give byte-identical encodings and identical decode results for the same values",
     text="Each generated module is built with the default options and with -fcompound-names, -findirect-choice, -fwide-types, "
          "-fno-constraints, -fincludes-quoted, -no-gen-PER/-no-gen-OER in drawn combinations; every value's DER/XER/UPER/OER "
-         "bytes (for the codecs left enabled) and the decode/check verdicts must not depend on the options, except the "
-         "constraint verdict under -fno-constraints.",
+         "bytes (for the codecs left enabled), the bytes after a transcoding chain DER->UPER->OER->XER->UPER, and what each "
+         "build decodes from the baseline's bytes must not depend on the options.",
     note="codecs removed by an option are not compared; option sets are a drawn sample of the 2^7 combinations")
 CHECKS["C16"] = dict(
     engine="vf-rapidcheck", level="exploration", design="DESIGN.md §4 C16",
